@@ -78,6 +78,7 @@ package proposal
 //@   requires proposal.Status.PrevIndex < proposal.TransactionIndex
 //@   ensures {C02,C07} apply-in-order: deviceSetCalls > old(deviceSetCalls) ==> deviceSetCalls == old(deviceSetCalls) + 1 && readCfgOK && readCfgApplied < proposal.TransactionIndex && (proposal.Status.PrevIndex == 0 || readCfgApplied == proposal.Status.PrevIndex) && old(applyState(proposal)) == configapi.ProposalApplyPhase_APPLYING
 //@   ensures {C04,C10} apply-gated-on-sync: deviceSetCalls > old(deviceSetCalls) ==> readCfgState != configapi.ConfigurationStatus_SYNCHRONIZING && readCfgAppliedTerm >= readCfgTerm && readCfgMaster != ""
+//@   ensures {C10} set-goes-over-the-master-connection: deviceSetCalls > old(deviceSetCalls) ==> lastSetConnID == readCfgMaster
 //@   ensures {C10} apply-carries-term: deviceSetCalls > old(deviceSetCalls) ==> lastSetHasArbitration && lastSetElectionLow == readCfgTerm && lastSetElectionHigh == 0
 //@   ensures {C02,C04,C07} applied-index-follows-device: deviceSetCalls > old(deviceSetCalls) && err == nil && (deviceCode == codes.OK) ==> storedCfgApplied == proposal.TransactionIndex && applyState(proposal) == configapi.ProposalApplyPhase_APPLIED
 //@   ensures {C02,C07} applied-only-if-index-reached: applyState(proposal) == configapi.ProposalApplyPhase_APPLIED && old(applyState(proposal)) == configapi.ProposalApplyPhase_APPLYING ==> storedCfgApplied >= proposal.TransactionIndex
